@@ -57,6 +57,76 @@ CHECKS = {
             "reachable after a stop (including through the --repeat back edge and a fresh result object); the layer loop "
             "is left after recorded failures or errors; final tear-down and verdict.",
             "typestate exploration + flow-sensitive CFG reachability", "4/C16"),
+    'C03': ("Selection structure: the selection state has exactly four writers (init, register, shuffle same-key, "
+            "filter whole-layer removal); run loop, listing and resume_tests consume ordered_layers() in order; nothing "
+            "executable is reachable from the listing in the call graph; each test loop executes its test exactly once per "
+            "completed iteration inside the repeat loop; a completed layer is popped exactly once, one thread per queued "
+            "layer started once, empty first layer iff -j N parent; child command line grammar agrees between writer and "
+            "reader; feature order Find < Shuffle < Filter < Listing. Not decided: equality of the executed multiset with "
+            "an independent computation of the selection.",
+            "who-may-write tables + CFG once-per-iteration rules + call-graph reachability + writer/reader agreement", "4/C03"),
+    'C06': ("-j N structure: the only thread start is guarded by len(running) < processes in a while loop, started "
+            "threads are recorded before the bound is re-tested, threads leave only when not alive, main loop runs while "
+            "ready or running; child killed and reaped and result.done set on every exit; one flush statement, whole "
+            "list, under result.done, cursor over results in layer order, reap before flush; deferred collectors never "
+            "write to a stream and keep every non-dot line, the immediate one only for processes == 1. Not decided: "
+            "outcome equality with the sequential run, real schedules, liveness.",
+            "guard-literal and dominance rules on the CFG of resume_tests + effect classification of collector classes", "4/C06"),
+    'C08': ("The predicate returned by build_filtering_func is exactly any(positives) and not any(negatives) applied to "
+            "its argument (polarity +/-, order-insensitive); symbolic execution of the pattern loop shows '!' patterns go, "
+            "with exactly one character removed, to the negated list and others unchanged to the positive list as "
+            "re.compile(p).search; only-negated default; the pattern lists are used only through build_filtering_func; "
+            "predicates are routed and used with the right polarity. Not decided: regex semantics on concrete names.",
+            "polarity calculus + symbolic path enumeration of the classification loop + def-use", "4/C08"),
+    'C09': ("Nearest-wins data flow of level/layer through tests_from_suite; the level predicate extracted from the guard "
+            "literals of every yield equals the specification on the whole finite domain of order types of (level, "
+            "at_level, 0) x only_level; --all; decision tables of the -u/-f switches and of the unit-layer keep/drop "
+            "logic equal the documented ones. Not decided: unittest's own suite nesting.",
+            "guard extraction + evaluation over a finite abstract domain (no program statement executed)", "4/C09"),
+    'C10': ("Determinism and once-each: the argument of order_by_bases reaches the result only through sorted(key="
+            "layer_sort_key); the key is pure (names and bases, no set iteration, no id/hash); premises of the bases-first "
+            "and unit-first arguments (pre-order gather over all bases, one reversal, first-occurrence de-duplication, "
+            "unit layer excluded from the key, descending sort); single ordering source. NOT decided: that the order is "
+            "bases-first/unit-first for every graph (induction over data), tie behaviour.",
+            "order-provenance rules + structural premises", "4/C10"),
+    'C11': ("Shuffle: the per-layer list is list(suite) modified only by mirrored swap assignments and stored back "
+            "under the same key; layers visited in sorted order; local random.Random seeded from self.seed, only seed()/"
+            "random() used; feature order Find < Shuffle < Filter < Listing; clock-derived seed recorded on the options "
+            "and forwarded to children; seed always reported. Not decided: index arithmetic of the Fisher-Yates step, "
+            "the float stream of random().",
+            "mutation-shape rule (swap-only) + who-may-call on the RNG + def-use of the seed", "4/C11"),
+    'C14': ("Discovery structure: directory list sorted in place before every walk step is yielded and only filtered "
+            "afterwards, files yielded from sorted(); de-duplication by path; a module rejected by --module can never "
+            "reach import_name (CFG with the predicate fixed to false), who-may-import table; in-place pruning by "
+            "identifier/IGNORE_FOLDERS/ignore_dir before the walk resumes; --package restricts the walk; prefixes "
+            "sorted longest first. Not decided: the file/package predicate on arbitrary trees, symlinks.",
+            "order-provenance + CFG reachability under a fixed predicate value + who-may-call", "4/C14"),
+    'C15': ("Stale bytecode: the only destructive file-system call reachable from discovery is the os.unlink of "
+            "remove_stale_bytecode (all destructive sites of the package tabulated); nothing is walked or deleted under "
+            "keepbytecode, usecompiled implies it; the unlink guard is exactly suffix in {.pyc,.pyo} and not source-"
+            "beside-it; target is join(dirname, file) of the same walk step; __pycache__ pruned; loops complete. Not "
+            "decided: name edge cases, case-folding file systems.",
+            "effect ownership over the call graph + guard-literal analysis", "4/C15"),
+    'C17': ("XML: every test-derived string reaching Element.set/.text passes a sanitiser whose regex character class "
+            "(computed from the regex syntax tree) covers all code points outside XML 1.0 Char; ASCII-safe serialisation; "
+            "tests == len(records), failure/error counters and children created under the same field, one record per "
+            "outcome; wrapper overrides record once and forward. Not decided: subtest class attribution, file names.",
+            "taint-to-sink rule with a statically computed character class + def-use", "4/C17"),
+    'C18': ("Global state: teardown loops on every exit after the test phase (exception edges); for each catalogued "
+            "mutator in a feature set-up hook the previous value is saved from the matching getter first and restored "
+            "from that saved value in a teardown hook Runner.run calls; warnings filter changes only inside "
+            "catch_warnings; std streams via the typestate exploration and the who-may-assign table; stray mutators "
+            "paired inside their function. Not decided: C-level profiler state, state changed by tests.",
+            "save/mutate/restore pairing over resolved library calls + CFG must-pass-through", "4/C18"),
+    'C19': ("Thread report: per-test snapshot freshness and same enumerator on both sides on every protocol word "
+            "(typestate); the guard of the report is exactly alive(+), in-snapshot(-), any re.match ignore(-) and "
+            "nothing else; list passed whole with the test that ended; enumerate covers every ident of "
+            "sys._current_frames, proxy equality by ident. Not decided: thread timing, identifier reuse.",
+            "typestate exploration + guard-literal polarity", "4/C19"),
+    'C20': ("ONLY totality and representation invariants: all reads of the neighbour map are total, unvisited/state "
+            "and stacked/stack invariants, yield only under the root test, default-mode drop condition. NOT decided "
+            "and not claimed: that the components are exactly the SCCs for every graph (algorithm correctness over data).",
+            "contradiction rule on map accesses + structural invariants", "4/C20"),
 }
 
 REASON_NOT_BUILT = "static check for this property is not built yet in this round (see DESIGN.md section 4 for the planned rules)"
